@@ -4,7 +4,7 @@ from props.C13 import CLI_BASE
 PROP = {
         "needs_binary": True,
         "obligations": [
-            "earlier_outputs_survive", "earlier_outputs_survive_run", "success_all_written",
+            "earlier_outputs_survive", "earlier_outputs_survive_run", "success_all_written", "success_all_written_any_fd",
             "no_finished_input_in_buffer", "no_flush_counterexample", "with_flush_on_the_counterexample",
         ],
         "trusted_base": CLI_BASE,
